@@ -688,8 +688,10 @@ class BaseCarver(BaseDiscretizer):
                         train_rates.sort_values("target_rate").index
                         == dev_rates.sort_values("target_rate").index
                     )
-                    # - minimum frequency is reached for all modalities
-                    min_freq_dev = all(dev_rates["frequency"] >= self.min_freq_mod)
+                    # - minimum frequency is reached for all modalities (each one is observed)
+                    min_freq_dev = all(dev_rates["frequency"] >= self.min_freq_mod) and all(
+                        dev_rates["frequency"] > 0
+                    )
                     # - target rates are distinct for all modalities
                     distinct_rates_dev = not any(
                         isclose(dev_rates["target_rate"][1:], dev_rates["target_rate"].shift(1)[1:])
